@@ -31,7 +31,7 @@ SPEC = dict(
     imports="From Ship Require Import Base Ski Sha1 Cert.",
     case_type="c02_case", check_fn="check_c02",
     drivers=[
-        dict(bin="certdrv", args=["-prop", "C02", "-mode", "unit"], n_quick=3200, n_thorough=60000),
+        dict(bin="certdrv", args=["-prop", "C02", "-mode", "unit"], n_quick=2400, n_thorough=60000),
         dict(bin="certdrv", args=["-prop", "C02", "-mode", "sys"], n_quick=140, n_thorough=3000, timeout=1200),
     ],
     codes={10: "accepted_below_tls12", 11: "accepted_without_subprotocol", 12: "accepted_without_certificate",
